@@ -30,10 +30,19 @@ impl SwiftField for Field79 {
     where
         Self: Sized,
     {
+        if input.lines().count() > 35 {
+            return Err(ParseError::InvalidFormat {
+                message: format!(
+                    "Field 79 cannot have more than 35 lines, found {}",
+                    input.lines().count()
+                ),
+            });
+        }
+
         let mut lines = Vec::new();
 
         // Parse up to 35 lines of 50 characters each
-        for line in input.lines().take(35) {
+        for line in input.lines() {
             // Validate line length (max 50 characters)
             if line.len() > 50 {
                 return Err(ParseError::InvalidFormat {
